@@ -575,3 +575,29 @@ def c13_compiled_task(arg):
                     out["violations"].append((sig, dict(combo=combo, mode=mode, eps=e, detail=det), rp))
     out["violations"] = out["violations"][:12]
     return out
+
+
+
+def _guard(fn, sig_prefix):
+    def wrapped(arg):
+        try:
+            return fn(arg)
+        except Exception as e:  # noqa
+            import traceback as tb
+
+            src = arg.get("src", {})
+            name = src.get("name", arg.get("name", "?"))
+            rp = {k: v for k, v in arg.items() if k in ("src", "modes", "prunes", "mode", "prune", "combos", "eps", "dynamic")}
+            if "modes" in rp and "mode" not in rp:
+                rp["mode"], rp["prune"] = list(rp["modes"])[0], list(rp.get("prunes", (True,)))[0]
+            return dict(name=name, instances=0, states=0, transitions=0, traces=0, skipped=None, rejected=0, stats=[], paths=0,
+                        violations=[(f"{sig_prefix}:raised:{type(e).__name__}", dict(exc=repr(e)[:400], tb=tb.format_exc()[-1200:]), rp)])
+
+    wrapped.__name__ = fn.__name__
+    return wrapped
+
+
+c01_task = _guard(c01_task, "replay")
+c06c_task = _guard(c06c_task, "compiled")
+c08_task = _guard(c08_task, "buffers")
+c13_compiled_task = _guard(c13_compiled_task, "compiled")
